@@ -51,7 +51,7 @@ def cases(tier):
             G(f"order2/{ik}/{kind}/{dim}/{mkind}", "order2", {"ikind": ik, "kind": kind, "dim": dim, "mkind": mkind})
     # (the Steffensen solver needs np.finfo of the iterate's dtype and cannot run on symbolic series: not covered)
     for ik in ("implicit_leapfrog", "implicit_midpoint"):
-        for kind, dim, mkind in [("euclid", 1, "diag")] + ([("scalar", 1, "diag"), ("diagonal", 1, "diag"), ("scalar", 2, "diag"), ("cholesky", 1, "diag"), ("dense", 1, "diag")] if th else []):
+        for kind, dim, mkind in [("euclid", 1, "diag"), ("gauss", 1, "diag")] + ([("scalar", 1, "diag"), ("diagonal", 1, "diag"), ("scalar", 2, "diag"), ("cholesky", 1, "diag"), ("dense", 1, "diag")] if th else []):
             if ik.endswith("steffensen") and kind != "euclid":
                 continue
             G(f"order2/{ik}/{kind}/{dim}", "order2", {"ikind": ik, "kind": kind, "dim": dim, "mkind": mkind})
